@@ -88,6 +88,20 @@ CLAIMED = {
         "Termination is not claimed.",
    technique="contract-based deductive verification: loop invariants over a ghost prophecy stream, per-path string VCs (cvc5 + z3)",
    ref="5 C03"),
+ "C06": dict(
+   text="Client._connect and Client.close are executed symbolically from the real source against a ghost socket module in which every "
+        "environment call (getaddrinfo, socket(), setsockopt, wrap_socket, settimeout, connect, close) succeeds or raises at every "
+        "position, for any number of resolved addresses (loop invariant: no socket is open at a loop head), in every configuration of "
+        "no_delay / TLS / keep-alive / TCP vs UNIX / with or without a previous socket. VCs per exit: on success exactly one socket is "
+        "open and it is self.sock, its event log is exactly settimeout(connect_timeout), keep-alive options iff configured, connect, "
+        "settimeout(timeout), TCP_NODELAY iff no_delay, and it is the TLS wrapper iff a context is configured; on any raising exit "
+        "self.sock is None and every socket created was closed (nothing abandoned, no stale error after a later address succeeded); "
+        "close() never raises and leaves self.sock None.",
+   note="Trusted: the ghost socket-module contract (the OS/ssl: each call succeeds or raises an Exception-class error; closing a TLS wrapper "
+        "closes the wrapped socket; getaddrinfo never returns an empty list); pyvc; z3. 'Next call reconnects' is this contract plus C01's "
+        "exceptional postcondition. Non-Exception interruptions are C10.",
+   technique="contract-based deductive verification: loop invariant over ghost socket counters, per-exit VCs with event logs, z3",
+   ref="5 C06"),
 }
 REASON_PENDING = "contracts designed (DESIGN.md section 5) but not yet mechanised; not claimed"
 
